@@ -462,7 +462,7 @@ def gen_tour(r, nblocks=None, funcproc=False, huge=0.0):
         blk += [('pad', r.choice(pads))]
         if bi == huge_block:
             # an image larger than 64 KiB (or 128 KiB) with live blocks and data words beyond the boundary
-            blk[-1] = ('pad', r.choice([65500, 66000, 70000, 131100, 140000]))
+            blk[-1] = ('pad', r.choice([65500, 66000, 70000, 131100, 140000, 205000, 400000]))
         items += blk
     if not dpos:
         items += [('pad', r.randint(0, 3))] + data
